@@ -58,7 +58,10 @@ def _run_one(args):
             if not os.path.exists(p):
                 return mu['id'], 'n/a', f'file {ed["file"]} not found'
             s = open(p, encoding='utf-8').read()
-            if s.count(ed['old']) != 1:
+            if ed.get('all'):
+                if s.count(ed['old']) < 1:
+                    return mu['id'], 'n/a', f'fragment not found in {ed["file"]}'
+            elif s.count(ed['old']) != 1:
                 return mu['id'], 'n/a', f'fragment occurs {s.count(ed["old"])} times in {ed["file"]}'
             with open(p, 'w', encoding='utf-8') as fh:
                 fh.write(s.replace(ed['old'], ed['new']))
